@@ -40,22 +40,25 @@ Definition span_witness (gens : list bsf) (v : bsf) : option (list bool) :=
   if is_zero r then Some c else None.
 
 (* the decision used by the checks: the elimination's coefficients are accepted only if they
-   really combine to v *)
-Definition in_span (n : nat) (gens : list bsf) (v : bsf) : option (list bool) :=
-  match span_witness gens v with
-  | Some c => if (length c =? length gens) && beqv (lincomb n c gens) v then Some c else None
-  | None => None
-  end.
+   really combine to v, so the answer is sound whatever basis is supplied (the driver computes
+   basis_of gens once per matrix) *)
+Definition in_span_with (basis : list bentry) (n : nat) (gens : list bsf) (v : bsf) : option (list bool) :=
+  let '(r, c) := reduce basis v (zeros (length gens)) in
+  if is_zero r && (length c =? length gens) && beqv (lincomb n c gens) v then Some c else None.
+Definition in_span (n : nat) (gens : list bsf) (v : bsf) : option (list bool) := in_span_with (basis_of gens) n gens v.
 Definition in_spanb (n : nat) (gens : list bsf) (v : bsf) : bool :=
   match in_span n gens v with Some _ => true | None => false end.
 
-Theorem in_span_sound n gens v c : in_span n gens v = Some c -> length c = length gens /\ lincomb n c gens = v.
+Theorem in_span_with_sound basis n gens v c : in_span_with basis n gens v = Some c ->
+  length c = length gens /\ lincomb n c gens = v.
 Proof.
-  unfold in_span. destruct (span_witness gens v) as [c'|]; [|discriminate].
-  destruct ((length c' =? length gens) && beqv (lincomb n c' gens) v) eqn:E; [|discriminate].
-  intros H. injection H as <-. apply andb_true_iff in E. destruct E as [E1 E2].
+  unfold in_span_with. destruct (reduce basis v (zeros (length gens))) as [r c'].
+  destruct (is_zero r && (length c' =? length gens) && beqv (lincomb n c' gens) v) eqn:E; [|discriminate].
+  intros H. injection H as <-. apply andb_true_iff in E. destruct E as [E E2]. apply andb_true_iff in E. destruct E as [_ E1].
   apply Nat.eqb_eq in E1. apply beqv_spec in E2. auto.
 Qed.
+Theorem in_span_sound n gens v c : in_span n gens v = Some c -> length c = length gens /\ lincomb n c gens = v.
+Proof. apply in_span_with_sound. Qed.
 Theorem in_spanb_sound n gens v : in_spanb n gens v = true -> in_spanP n gens v.
 Proof.
   unfold in_spanb. destruct (in_span n gens v) as [c|] eqn:E; [|discriminate]. intros _.
